@@ -26,8 +26,10 @@ from .registry import (
     class_decorators,
 )
 
-FEAS_TIMEOUT_MS = 400
-OBL_TIMEOUT_MS = 15000
+import os as _os
+
+FEAS_TIMEOUT_MS = int(_os.environ.get("PYVC_FEAS_MS", "400"))
+OBL_TIMEOUT_MS = int(_os.environ.get("PYVC_OBL_MS", "15000"))
 
 
 class Reject(Exception):
@@ -117,6 +119,13 @@ class LambdaVal:
     def __init__(self, node, env, run):
         self.node = node
         self.env = env
+
+
+class EmptyContainer:
+    """`set()` / `list()` / `dict()` / `[]` / `{}` before its static type is known (fixed on first store)."""
+
+    def __init__(self, kind):
+        self.kind = kind
 
 
 class ExcVal:
@@ -526,6 +535,13 @@ class Run:
 
     # ---- coercions ---------------------------------------------------------------------------
     def coerce(self, v, t):
+        if isinstance(v, EmptyContainer):
+            want = {"list": T.List, "set": T.Set, "dict": T.Dict}[v.kind]
+            if isinstance(t, want):
+                return self.new_container(t)
+            raise Reject("empty %s where %s expected" % (v.kind, t))
+        if isinstance(v, PyTuple) and not v.items and v.is_list and isinstance(t, T.List):
+            return self.new_container(t)
         if isinstance(v, PyTuple):
             if isinstance(t, T.Tup):
                 assert len(v.items) == len(t.elems), "tuple arity"
@@ -701,6 +717,11 @@ class Run:
         if modname + "." + name in CONTRACTS:
             return FuncRef(modname + "." + name)
         raise Reject("unresolved name %s in %s" % (name, modname))
+
+    def ev_Dict(self, n):
+        if n.keys:
+            raise Reject("dict literal with entries")
+        return EmptyContainer("dict")
 
     def ev_Tuple(self, n):
         return PyTuple([self.ev(e) for e in n.elts])
@@ -1349,9 +1370,9 @@ class Run:
                 if q:
                     return self.call_function(q, [v], {})
             return SV(T.INT, H.fresh(name, H.I))
+        if name in ("list", "set", "dict") and not args:
+            return EmptyContainer(name)
         if name == "list":
-            if not args:
-                raise Reject("list() needs a type: use a declared field")
             (v,) = args
             if isinstance(v, PyTuple):
                 return PyTuple(v.items, True)
